@@ -58,7 +58,7 @@ def shards(tier):
 
 
 def sequences_per_class(tier):
-    return 40 if tier == "quick" else 400
+    return 80 if tier == "quick" else 600
 
 
 def steps(tier):
@@ -148,6 +148,12 @@ class Opened:
         self.stream, self.model, self.size, self.unit = stream, model, size, unit
         self.sector, self.read_sectors = sector, read_sectors
         self.table_span = table_span or unit
+        # offsets where stored data begins / ends (the images are sparse: most of a big disk reads as zeros)
+        pts = []
+        ext = getattr(model, "layers", [model])[0]
+        for off, prov in list(zip(ext._offs, ext._provs))[:400]:
+            pts += [off, off + prov.length]
+        self.points = sorted(set(p for p in pts if 0 <= p <= size)) or [0]
 
 
 def open_image(cls, spec) -> Opened:
@@ -260,6 +266,7 @@ class Runner:
         self.pos = 0
         self.failure = None  # (sig, message)
         self.data_ops = 0
+        self.history = []  # (offset, length) of every data-returning operation so far
         self.back_seeks = 0
         self.boundary_reads = 0
 
@@ -276,6 +283,7 @@ class Runner:
 
     def note_read(self, off, n):
         self.data_ops += 1
+        self.history.append((off, n))
         if n > 0:
             tail = (self.o.size // BUFSIZE) * BUFSIZE
             if off + n > tail or off // self.o.unit != (off + n - 1) // self.o.unit:
@@ -515,6 +523,8 @@ def make_machine(cls, tier, col):
                 base = self.r.pos
             elif kind == 4:
                 base = (k % (size // o.table_span + 2)) * o.table_span
+            elif kind in (6, 7):
+                base = o.points[k % len(o.points)]
             else:
                 base = (k * 7919) % (size + 1)
             return max(0, base + delta)
@@ -534,7 +544,7 @@ def make_machine(cls, tier, col):
         DELTAS = [-BUFSIZE - 1, -BUFSIZE, -513, -512, -1, 0, 1, 511, 512, 513, BUFSIZE - 1, BUFSIZE, BUFSIZE + 1]
 
         @precondition(lambda self: self.alive())
-        @rule(kind=st.integers(0, 5), k=st.integers(0, 10000), d=st.sampled_from(DELTAS), whence=st.sampled_from([0, 0, 1, 2]))
+        @rule(kind=st.integers(0, 7), k=st.integers(0, 10000), d=st.sampled_from(DELTAS), whence=st.sampled_from([0, 0, 1, 2]))
         def seek(self, kind, k, d, whence):
             target = self.offset_choice(kind, k, d)
             if whence == 0:
@@ -566,7 +576,7 @@ def make_machine(cls, tier, col):
             self.do(["read", n])
 
         @precondition(lambda self: self.alive())
-        @rule(kind=st.integers(0, 5), k=st.integers(0, 10000), d=st.sampled_from(DELTAS), lk=st.integers(0, 4), k2=st.integers(0, 10000))
+        @rule(kind=st.integers(0, 7), k=st.integers(0, 10000), d=st.sampled_from(DELTAS + [2 * BUFSIZE, 3 * BUFSIZE + 512]), lk=st.integers(0, 4), k2=st.integers(0, 10000))
         def readoffset(self, kind, k, d, lk, k2):
             self.do(["readoffset", self.offset_choice(kind, k, d), self.length_choice(lk, k2)])
 
@@ -576,8 +586,43 @@ def make_machine(cls, tier, col):
             prev = [o for o in self.ops if o[0] == "readoffset"]
             self.do(list(prev[i % len(prev)]))
 
+        @precondition(lambda self: self.alive() and len(self.r.history) > 0)
+        @rule(i=st.integers(0, 1000), back=st.integers(1, 3), lk=st.integers(0, 4), k2=st.integers(0, 10000), aligned=st.booleans(),
+              sectors=st.booleans())
+        def resume(self, i, back, lk, k2, aligned, sectors):
+            """Continue exactly where an earlier read ended (or at the end of the buffer it filled), typically after
+            other parts of the disk were touched in between."""
+            h = self.r.history
+            off, n = h[max(0, len(h) - 1 - (i % min(len(h), back + 2)))]
+            end = off + n
+            if aligned:
+                end = -(-end // BUFSIZE) * BUFSIZE
+            if sectors and self.r.o.read_sectors is not None:
+                ss = self.r.o.sector
+                total = self.r.o.size // ss
+                sec = end // ss
+                if sec < total:
+                    self.do(["read_sectors", sec, max(1, min(1 + k2 % 64, total - sec))])
+                return
+            self.do(["readoffset", end, self.length_choice(lk, k2)])
+
+        @precondition(lambda self: self.alive())
+        @rule(k=st.integers(0, 10000), d=st.sampled_from([0, 0, 512, 1, BUFSIZE]), n1=st.sampled_from([1, 512, BUFSIZE, BUFSIZE + 1, 3 * BUFSIZE]),
+              far=st.integers(0, 1 << 40), n2=st.sampled_from([1, 512, 4096]), n3=st.sampled_from([1, 512, BUFSIZE, 2 * BUFSIZE + 7]),
+              aligned=st.booleans())
+        def pingpong(self, k, d, n1, far, n2, n3, aligned):
+            """Read a piece of stored data, touch an unrelated (mostly never visited) place, continue the first read."""
+            o = self.r.o
+            a = min(max(0, o.points[k % len(o.points)] + d), max(0, o.size - 1))
+            self.do(["readoffset", a, n1])
+            self.do(["readoffset", far % max(1, o.size), n2])
+            end = a + n1
+            if aligned:
+                end = -(-end // BUFSIZE) * BUFSIZE
+            self.do(["readoffset", end, n3])
+
         @precondition(lambda self: self.alive() and self.r.o.read_sectors is not None)
-        @rule(kind=st.integers(0, 5), k=st.integers(0, 10000), d=st.sampled_from(DELTAS), c=st.integers(1, 300))
+        @rule(kind=st.integers(0, 7), k=st.integers(0, 10000), d=st.sampled_from(DELTAS), c=st.integers(1, 300))
         def read_sectors(self, kind, k, d, c):
             ss = self.r.o.sector
             total = self.r.o.size // ss
@@ -598,9 +643,8 @@ def make_machine(cls, tier, col):
             start = (k % 3) * stride
             self.do(["sweep", start, stride, count, delta, n])
 
-        @precondition(lambda self: self.alive())
         @rule()
-        def tell(self):
+        def tell(self):  # always enabled: once a failure is recorded the other rules switch off and this one idles
             self.do(["tell"])
 
         def teardown(self):
